@@ -16,8 +16,8 @@ def run(tier):
     wd = workdir("c04")
     tf = os.path.join(wd, "table.json")
     json.dump(table[0], open(tf, "w"))
-    for cfg in ["stable", "nightly"]:
-        for s in range(12 if thorough else 1):
+    for cfg in ["stable", "nightly", RELEASE]:
+        for s in range(12 if thorough and cfg != RELEASE else 1):
             o = os.path.join(wd, "untrusted.json")
             conform(cfg, ["untrusted", tf, o, ck.seed + s, 4 if thorough else 2], timeout=3000)
             _merge(ck, json.load(open(o)))
